@@ -1,4 +1,4 @@
 INIT Init
 NEXT Next
-INVARIANTS RoundTrip TruncRejected DanglingRejected Emit
+INVARIANTS RoundTrip TruncRejected DanglingRejected ContentsCutRejected Emit
 CHECK_DEADLOCK FALSE
